@@ -8,7 +8,10 @@
 //	        real-time delivery-order / double-queue-priority checkers (O(n log n));
 //	lin-*   small histories checked with porcupine (bounded FIFO; two-FIFO priority model);
 //	wake-*  bounded progress of the blocking Get with consumers parked before the first put;
-//	timed-* GetTimeout returns empty-handed only after its timeout (− 1 ms clock truncation).
+//	timed-* GetTimeout returns empty-handed only after its timeout (− 1 ms clock truncation);
+//	tdelta-* the same under process-wide clock corrections (dateutil.SetDelta: 0, −1 ms … −1 day,
+//	        +1 ms … +1 h), plus: the get returns at all (judged against the delta-0 control);
+//	*-cd    a slice of seq/lin/conc/wake re-run under a non-zero clock correction.
 //
 // Nothing in here waits without a bound (adapter.go: guardCall, waitProgress, runawayPanic):
 // a library call that does not return costs one case (conclusive where the stuck state is
@@ -74,6 +77,30 @@ func main() {
 		})
 		timed("timed", func() {
 			c.Cases("timed-"+tag, n(32, 1200, 8, 200), func(i int, r *vlib.Rand) { timedCase(c, kind, i, r) })
+		})
+	}
+	// Clock-correction phase (tdelta.go). dateutil.SetDelta is process-global, so this is a
+	// sequential phase of its own, after everything else; every case restores delta 0.
+	// First a slice of the sections above re-run under a correction (they must be unaffected),
+	// then the timed get under every correction of clockDeltas.
+	secSuffix = "-cd"
+	for kind, tag := range []string{"rq", "dq"} {
+		kind := kind
+		under := func(section string, fn func(i int, r *vlib.Rand)) func(i int, r *vlib.Rand) {
+			return func(i int, r *vlib.Rand) { withSideDelta(c, section, i, func() { fn(i, r) }) }
+		}
+		timed("cd", func() {
+			c.Cases("seq-"+tag+"-cd", n(640, 30000, 160, 4000), under("seq-"+tag+"-cd", func(i int, r *vlib.Rand) { seqCase(c, kind, i, r) }))
+			c.Cases("lin-"+tag+"-cd", n(320, 12000, 96, 2000), under("lin-"+tag+"-cd", func(i int, r *vlib.Rand) { linCase(c, kind, i, r) }))
+			c.Cases("conc-"+tag+"-cd", n(24, 600, 12, 200), under("conc-"+tag+"-cd", func(i int, r *vlib.Rand) { concCase(c, kind, i, r) }))
+			c.Cases("wake-"+tag+"-cd", n(16, 600, 8, 200), under("wake-"+tag+"-cd", func(i int, r *vlib.Rand) { wakeCase(c, kind, i, r) }))
+		})
+	}
+	secSuffix = ""
+	for kind, tag := range []string{"rq", "dq"} {
+		kind := kind
+		timed("tdelta", func() {
+			c.Cases("tdelta-"+tag, n(16, 240, 4, 48), func(i int, r *vlib.Rand) { tdeltaCase(c, kind, i, r) })
 		})
 	}
 	if len(abandonedSections) > 0 {
